@@ -14,9 +14,29 @@ import importlib.machinery
 import importlib.util
 import json
 import os
+import signal
 import sys
 import time
 import traceback
+
+
+class CaseTimeout(BaseException):
+    def __init__(self, where, stack):
+        super().__init__(where)
+        self.where, self.stack = where, stack
+
+
+def _on_alarm(signum, frame):
+    where, stack = "?", []
+    f = frame
+    while f is not None:
+        fn = f.f_code.co_filename
+        if "/pendulum/" in fn and "/pvmon/" not in fn:
+            stack.append(f"{os.path.basename(fn)}:{f.f_code.co_name}:{f.f_lineno}")
+        f = f.f_back
+    if stack:
+        where = stack[-1].rsplit(":", 1)[0]      # outermost pendulum frame: stable across runs
+    raise CaseTimeout(where, stack[:8])
 
 
 def bootstrap(spec):
@@ -83,15 +103,27 @@ def main():
         else:
             cases = mod.cases(M)
         n = 0
+        budget = float(getattr(mod, "CASE_CPU_BUDGET_S", 20))
+        signal.signal(signal.SIGVTALRM, _on_alarm)
         for case in cases:
             M.current = case
             n += 1
+            # per-case watchdog on the process's own CPU time (immune to machine load): a case normally takes
+            # milliseconds, so burning `budget` CPU seconds inside one call is a hang of the code under test
+            signal.setitimer(signal.ITIMER_VIRTUAL, budget)
             try:
                 mod.run(M, case)
+            except CaseTimeout as e:
+                M.quiet = 0
+                M.viol(f"{spec['prop']}/hang:{e.where}", f"call did not return within {budget:.0f} s of CPU time (outermost pendulum frame: {e.where})",
+                       stack=e.stack)
+                M.count("hangs")
             except Exception:
                 M.count("harness_error")
                 if len(M.notes) < 5:
                     M.notes.append(f"harness error on {case!r}: {traceback.format_exc(limit=6)}")
+            finally:
+                signal.setitimer(signal.ITIMER_VIRTUAL, 0)
         M.current = None
         if hasattr(mod, "finish"):
             mod.finish(M)
